@@ -304,10 +304,7 @@ func (r *resolver) load(addr ssa.Value, path []int, fr *frame, depth int) bset {
 			for _, st := range r.fieldStores[fieldKey(a.X.Type(), a.Field)] {
 				var f2 *frame
 				if fr != nil {
-					f2 = fr.find(st.Parent())
-					if f2 != nil {
-						f2 = f2 // same activation on the stack
-					}
+					f2 = fr.find(st.Parent()) // same activation on the stack, if any
 				}
 				got.add(r.res(st.Val, path, f2ctx(f2), depth+1))
 			}
